@@ -451,6 +451,8 @@ def run(rep, ctx):
         r09_1(rep, M, "R09.1")
     with rep.guard("R09.2"):
         r09_2(rep, M, "R09.2")
+        from . import c01 as _c01
+        _c01.r01_8_components(rep, M, "R09.2")
     with rep.guard("R09.3"):
         r09_3(rep, M, "R09.3")
     rep.rule("R09.4", "the displacement-tensor wrapper hands cutoff, positions and cell to the minimum-image search unreduced")
